@@ -153,11 +153,26 @@ pub struct DigestPlan {
 }
 
 /// Rebuild `parts` with the four standard digests planted as planned.
+/// Like `with_digests`, but the payload digest / algorithm entries are the given ones (any type) instead of planned ones.
+pub fn with_digests_keep(parts: &Parts, plan: &DigestPlan, payload_digest: Option<Val>, algo: Option<Val>) -> (Vec<u8>, Layout) {
+    let mut q = parts.clone();
+    set(&mut q.main, TAG_PAYLOADDIGEST, payload_digest);
+    set(&mut q.main, TAG_PAYLOADDIGESTALGO, algo);
+    // header digests over the final main header; the payload digest tags are left as set above
+    with_digests_opts(&q, plan, false)
+}
+
 pub fn with_digests(parts: &Parts, plan: &DigestPlan) -> (Vec<u8>, Layout) {
+    with_digests_opts(parts, plan, true)
+}
+
+fn with_digests_opts(parts: &Parts, plan: &DigestPlan, plan_payload: bool) -> (Vec<u8>, Layout) {
     let mut p = parts.clone();
-    set(&mut p.main, TAG_PAYLOADDIGEST, None);
-    set(&mut p.main, TAG_PAYLOADDIGESTALGO, None);
-    if let Some(t) = plan.payload.text(sha256_hex(&p.payload)) {
+    if plan_payload {
+        set(&mut p.main, TAG_PAYLOADDIGEST, None);
+        set(&mut p.main, TAG_PAYLOADDIGESTALGO, None);
+    }
+    if let Some(t) = plan.payload.text(sha256_hex(&p.payload)).filter(|_| plan_payload) {
         set(&mut p.main, TAG_PAYLOADDIGEST, Some(Val::strs(&[&t])));
         // the low 16 bits are the first item; a non-zero high half adds a second item (value + 1)
         let mut algos = vec![plan.algo & 0xFFFF];
